@@ -9,6 +9,9 @@ def step (line : String) : String :=
   | "c08t" :: a => Drv.C08.opT a
   | "c08u" :: a => Drv.C08.opU a
   | "c09" :: a => Drv.C09.op a
+  | "c05hy" :: a => Drv.C05.opHy a
+  | "c05pd" :: a => Drv.C05.opPD a
+  | "c06tz" :: a => Drv.C05.opTZ a
   | "c03s" :: a => Drv.C03.opS a
   | "c03r" :: a => Drv.C03.opR a
   | "c18h" :: a => Drv.C18.opH a
